@@ -62,10 +62,10 @@ Fixpoint find (p s : str) : option (str * str) :=
 Definition impl_contains (s o : str) : outcome :=
   Ok (VBool (match find o s with Some _ => true | None => false end)).
 
-(* ---- StrIndexOf: s.find(o) (byte offset) try_into i32, wrapped in an Optional *)
+(* ---- StrIndexOf: s.find(o) (byte offset) try_into i32; present = the bare Int, absent = nil *)
 Definition impl_index_of (s o : str) : outcome :=
   match find o s with
-  | Some (a, _) => let n := Z.of_N (blen a) in if in_i32 n then Ok (VSome (VInt n)) else Err
+  | Some (a, _) => let n := Z.of_N (blen a) in if in_i32 n then Ok (VInt n) else Err
   | None => Ok VNil
   end.
 
@@ -128,11 +128,8 @@ Definition impl_delete (s : str) (bottom top : Z) : outcome :=
   end.
 
 (* ---- parse_*: `if s.starts_with("0x") { s.get(2..) }` *)
-Definition strip_0x (s : str) : option str :=
-  match s with 48%N :: 120%N :: t => Some t | _ => None end.
-
 Definition opt_val (mk : Z -> val) (o : option Z) : outcome :=
-  match o with Some z => Ok (VSome (mk z)) | None => Ok VNil end.
+  match o with Some z => Ok (mk z) | None => Ok VNil end.
 
 (* StrParseInt / StrParseBigint at HEAD: the prefix is dropped and the rest read in DECIMAL *)
 Definition impl_parse_int_head (s : str) : outcome :=
@@ -165,15 +162,15 @@ Definition impl_parse_bigint_radix := impl_parse_radix VBig i128_min i128_max.
 
 (* StrParseBool: str::parse::<bool> *)
 Definition impl_parse_bool (s : str) : outcome :=
-  if str_eqb s s_true then Ok (VSome (VBool true))
-  else if str_eqb s s_false then Ok (VSome (VBool false))
+  if str_eqb s s_true then Ok (VBool true)
+  else if str_eqb s s_false then Ok (VBool false)
   else Ok VNil.
 
 (* StrParseByte: "0b" prefix selects radix 2, otherwise 10; u8::from_str_radix *)
 Definition impl_parse_byte (s : str) : outcome :=
-  match s with
-  | 48%N :: 98%N :: t => opt_val VByte (from_str_radix false 0 255 2 t)
-  | _ => opt_val VByte (from_str_radix false 0 255 10 s)
+  match strip_0b s with
+  | Some t => opt_val VByte (from_str_radix false 0 255 2 t)
+  | None => opt_val VByte (from_str_radix false 0 255 10 s)
   end.
 
 (* ---- StrSplit *)
